@@ -119,3 +119,14 @@ Example C02_example :
                     | Ok out => toy_dec_stream out | _ => None end) [0; 1; 2; 3; 4; 5] =
       [Some data; Some [20; 30; 40; 50]; Some [30; 40; 50]; Some [40; 50]; Some [50]; Some []].
 Proof. cbv zeta. eexists; eexists. split; [vm_compute; reflexivity|]. vm_compute. repeat split; congruence. Qed.
+
+(* The bound on the offset in C02_readers_never_panic is needed: beyond the blob size the Go readers
+   index the chunk table out of range.  (disk.get rejects offset >= size before calling them, and
+   unknown-size reads use offset 0, so no request reaches this; recorded so that a change of that
+   guard is noticed by whoever assembles C14.) *)
+Example C02_offset_beyond_size_panics :
+  exists ret file,
+    write_and_close toy_enc (fun _ => true) 2 Zstandard [10; 20; 30; 40; 50] false 5 = Ok (ret, file) /\
+    is_panic (uncompressed_reader toy_dec_all toy_dec_stream file (-1) 7) = true /\
+    is_panic (zstd_reader toy_enc toy_enc toy_dec_all file (-1) 7) = true.
+Proof. eexists; eexists. split; [vm_compute; reflexivity|]. split; vm_compute; reflexivity. Qed.
